@@ -2,9 +2,9 @@
 # Model of `graph.newGraph` + `graph.checkCycle` (compose-go `graph/services.go:49-80`, `graph/cycle.go:37-63`)
 
 Core Lean only.  Go maps are association lists iterated in list order (`services`, each `depends_on`).
-The quirk of `newGraph` is modelled as it is: on an *optional* dependency that is not an enabled service the code
-runs `delete(s.DependsOn, name)` with `name` = the **service's own name** on the caller's map while ranging over it:
-an entry for the service itself that has not been reached yet is never produced, and the caller's project loses it.
+Since `fix:` 3143716 an *optional* dependency that is not an enabled service is simply not an edge and the caller's
+project is not written to (the earlier `delete(s.DependsOn, name)` with `name` = the service's own name is kept as
+`runOld` in `Neg/C13.lean`).
 -/
 namespace CV.DepGraph
 
@@ -28,27 +28,22 @@ deriving DecidableEq, Repr
 inductive Err | disabled | unknown | cycle
 deriving DecidableEq, Repr
 
-/-- inner loop of `newGraph` for service `self`: error (if any), the edges added, and whether the `delete` ran -/
-def scanDeps (en dis : List Name) (self : Name) : List Dep → List Name → Bool → Option Err × List Name × Bool
-  | [], es, del => (none, es, del)
-  | d :: rest, es, del =>
-    if del && d.name == self then scanDeps en dis self rest es del          -- deleted before the range reached it
-    else if en.contains d.name then scanDeps en dis self rest (es ++ [d.name]) del
-    else if d.required then (some (if dis.contains d.name then .disabled else .unknown), es, del)
-    else scanDeps en dis self rest es true                                 -- delete(s.DependsOn, name); continue
+/-- inner loop of `newGraph` for one service: error (if any) and the edges added -/
+def scanDeps (en dis : List Name) : List Dep → List Name → Option Err × List Name
+  | [], es => (none, es)
+  | d :: rest, es =>
+    if en.contains d.name then scanDeps en dis rest (es ++ [d.name])
+    else if d.required then (some (if dis.contains d.name then .disabled else .unknown), es)
+    else scanDeps en dis rest es                                            -- optional, not enabled: no edge
 
-/-- what the caller's `depends_on` map of `self` looks like afterwards -/
-def depsAfter (self : Name) (deps : List Dep) (del : Bool) : List Dep :=
-  if del then deps.filter (fun d => d.name != self) else deps
-
-/-- outer loop: adjacency (service ↦ dependencies that are enabled services) and the project as left behind.
-An error returns at once; what had been deleted before stays deleted. -/
-def build (en dis : List Name) : List Svc → List (Name × List Name) → List Svc → Option Err × List (Name × List Name) × List Svc
-  | [], adj, done => (none, adj, done)
-  | s :: rest, adj, done =>
-    match scanDeps en dis s.name s.deps [] false with
-    | (none, es, del) => build en dis rest (adj ++ [(s.name, es)]) (done ++ [⟨s.name, depsAfter s.name s.deps del⟩])
-    | (some e, _, del) => (some e, adj, done ++ ⟨s.name, depsAfter s.name s.deps del⟩ :: rest)
+/-- outer loop: adjacency (service ↦ dependencies that are enabled services).  An error returns at once.
+The project is only read. -/
+def build (en dis : List Name) : List Svc → List (Name × List Name) → Option Err × List (Name × List Name)
+  | [], adj => (none, adj)
+  | s :: rest, adj =>
+    match scanDeps en dis s.deps [] with
+    | (none, es) => build en dis rest (adj ++ [(s.name, es)])
+    | (some e, _) => (some e, adj)
 
 def adjOf (adj : List (Name × List Name)) (v : Name) : List Name :=
   match adj.find? (·.1 == v) with
@@ -71,17 +66,15 @@ structure Outcome where
   changed : List Name
 deriving DecidableEq, Repr
 
-def changedOf (before after : List Svc) : List Name :=
-  (before.zip after).filterMap fun (a, b) => if a.deps == b.deps then none else some a.name
-
-/-- `newGraph` followed by `checkCycle`, i.e. everything `CollectInDependencyOrder` does before `walk` -/
+/-- `newGraph` followed by `checkCycle`, i.e. everything `CollectInDependencyOrder` does before `walk`.
+`changed` is empty by construction: the function has no write to the project. -/
 def run (p : Proj) : Outcome :=
   let en := p.services.map (·.name)
-  match build en p.disabled p.services [] [] with
-  | (some e, _, after) =>
-    { cls := match e with | .disabled => "disabled" | .unknown => "unknown" | .cycle => "cycle", changed := changedOf p.services after }
-  | (none, adj, after) =>
-    { cls := if checkCycle en (adjOf adj) then "cycle" else "ok", changed := changedOf p.services after }
+  match build en p.disabled p.services [] with
+  | (some e, _) =>
+    { cls := match e with | .disabled => "disabled" | .unknown => "unknown" | .cycle => "cycle", changed := [] }
+  | (none, adj) =>
+    { cls := if checkCycle en (adjOf adj) then "cycle" else "ok", changed := [] }
 
 /-- all permutations (iteration orders of a Go map) -/
 def perms {α} : List α → List (List α)
